@@ -599,7 +599,7 @@ Definition gen_alias_social_welfare_comparison : list py_alias :=
    mkAlias "result"%string RuleResult false;
    mkAlias "social_welfare"%string Scalar false].
 
-(* pabutools/rules/greedywelfare/greedywelfare_rule.py:144 greedy_utilitarian_scheme_additive with resoluteness=True, analytics=False
+(* pabutools/rules/greedywelfare/greedywelfare_rule.py:147 greedy_utilitarian_scheme_additive with resoluteness=True, analytics=False
 def greedy_utilitarian_scheme_additive(instance: Instance, profile: AbstractProfile, sat_profile: GroupSatisfactionMeasure, budget_allocation: BudgetAllocation, tie_breaking: TieBreakingRule, resoluteness: bool=True, analytics: bool=False) -> BudgetAllocation | list[BudgetAllocation]:
     if not resoluteness:
         return greedy_utilitarian_scheme(instance, profile, sat_profile, budget_allocation, tie_breaking, resoluteness, analytics)
